@@ -67,13 +67,21 @@ def _plain(e):
     return isinstance(e, (ast.Name, ast.Constant))
 
 
-def _first_effect_position(stmt, name):
+def _first_effect_position(stmt, name, pure=None):
     """True iff, in evaluation order, the (single) load of `name` in stmt is reached before any
     operation other than plain loads completes, and unconditionally (not inside the lazily
-    evaluated part of and/or/if-else, a comprehension, a lambda)."""
+    evaluated part of and/or/if-else, a comprehension, a lambda).  With `pure` (a predicate on
+    expressions) completed PURE sub-expressions before the position are tolerated as well."""
     found = []
+    _walk0 = [None]
 
     def walk(e):
+        r = _w(e)
+        if r == 'blocked' and pure is not None and isinstance(e, ast.expr) and not _occ(e, name) and pure(e):
+            return None
+        return r
+
+    def _w(e):
         # returns 'hit' if name reached cleanly, 'blocked' if something effectful completed first, None to continue
         if isinstance(e, ast.Name):
             if e.id == name and isinstance(e.ctx, ast.Load):
@@ -236,6 +244,11 @@ def _diff_position(a, b):
                     for k, (p, q) in enumerate(zip(vx, vy)):
                         sub.append((p, q, x, f, k))
                 elif isinstance(vx, ast.AST) or isinstance(vy, ast.AST):
+                    if f == 'step' and isinstance(x, ast.Slice) and (vx is None or vy is None):
+                        # a missing slice step is the step 1
+                        vx = vx if vx is not None else ast.Constant(value=1)
+                        vy = vy if vy is not None else ast.Constant(value=1)
+                        x.step = vx
                     sub.append((vx, vy, x, f, None))
                 elif vx != vy:
                     ok = False
@@ -400,6 +413,28 @@ class Idioms:
                 if t is not None:
                     node.test, node.body, node.orelse = t, node.orelse, node.body
                     outer.changed = True
+                # f(X, A) if c else f(X, B)  ->  f(X, A if c else B)   (c and what precedes the position pure)
+                if outer.is_pure(node.test) and isinstance(node.body, (ast.Call, ast.Tuple, ast.List, ast.BinOp, ast.Subscript)) \
+                        and type(node.body) is type(node.orelse):
+                    pos = _diff_position(node.body, node.orelse)
+                    if pos is not None and pos[0] is not None:
+                        probe = copy.deepcopy(node.body)
+                        ppos = _diff_position(probe, node.orelse)
+                        if ppos is not None and ppos[0] is not None:
+                            mk = ast.Name(id='__pos__', ctx=ast.Load())
+                            if ppos[2] is None:
+                                setattr(ppos[0], ppos[1], mk)
+                            else:
+                                getattr(ppos[0], ppos[1])[ppos[2]] = mk
+                            if _first_effect_position(ast.Expr(value=probe), '__pos__', pure=outer.is_pure):
+                                parent, field, idx, xa, xb = pos
+                                ife = ast.IfExp(test=node.test, body=xa, orelse=xb)
+                                if idx is None:
+                                    setattr(parent, field, ife)
+                                else:
+                                    getattr(parent, field)[idx] = ife
+                                outer.changed = True
+                                return ast.copy_location(node.body, node)
                 return node
 
             def visit_Attribute(self, node):
@@ -431,19 +466,19 @@ class Idioms:
             fn.body[i] = T().visit(s)
 
     # ------------------------------------------------------------------ block level
-    def block(self, stmts, root):
-        for s in stmts:
-            for f in ('body', 'orelse', 'finalbody'):
-                b = getattr(s, f, None)
-                if isinstance(b, list) and b and isinstance(b[0], ast.stmt) and not isinstance(s, (ast.FunctionDef, ast.ClassDef, ast.AsyncFunctionDef)):
-                    setattr(s, f, self.block(b, root))
-            if isinstance(s, ast.Try):
-                for h in s.handlers:
-                    h.body = self.block(h.body, root)
+    def block(self, stmts, root, loop=False):
         guard = 0
-        again = True
-        while again and guard < 400:
+        while guard < 400:
             guard += 1
+            for s in stmts:
+                inner_loop = isinstance(s, (ast.For, ast.While, ast.AsyncFor))
+                for f in ('body', 'orelse', 'finalbody'):
+                    b = getattr(s, f, None)
+                    if isinstance(b, list) and b and isinstance(b[0], ast.stmt) and not isinstance(s, (ast.FunctionDef, ast.ClassDef, ast.AsyncFunctionDef)):
+                        setattr(s, f, self.block(b, root, (inner_loop and f == 'body') or (loop and not inner_loop and isinstance(s, (ast.If, ast.With, ast.Try)))))
+                if isinstance(s, ast.Try):
+                    for h in s.handlers:
+                        h.body = self.block(h.body, root, loop)
             again = False
             for i, s in enumerate(stmts):
                 new = self._at(stmts, i, root)
@@ -452,7 +487,74 @@ class Idioms:
                     self.changed = True
                     again = True
                     break
+            if not again:
+                break
         return stmts
+
+    def _merge_arms(self, s):
+        pairs = list(zip(s.body, s.orelse))
+        c = s.test
+        c_pure = self.is_pure(c)
+        if len(pairs) > 1:
+            if not c_pure:
+                return None
+            # re-evaluating c for every statement: no statement of the arms may change what c reads
+            cn = _names(c)
+            for st in s.body + s.orelse:
+                for n in ast.walk(st):
+                    if isinstance(n, ast.Name) and isinstance(n.ctx, (ast.Store, ast.Del)) and n.id in cn:
+                        return None
+                    if isinstance(n, (ast.Subscript, ast.Attribute)) and isinstance(n.ctx, (ast.Store, ast.Del)):
+                        r = n
+                        while isinstance(r, (ast.Subscript, ast.Attribute)):
+                            r = r.value
+                        if isinstance(r, ast.Name) and r.id in cn:
+                            return None
+                    if isinstance(n, ast.Call) and not self.is_pure(n):
+                        return None
+        out = []
+        for a, b in pairs:
+            if ast.dump(a) == ast.dump(b):
+                if len(pairs) == 1:
+                    return None
+                out.append(a)
+                continue
+            if not (type(a) is type(b) and isinstance(a, (ast.Assign, ast.Expr, ast.Return))):
+                return None
+            if isinstance(a, ast.Assign) and [ast.dump(t) for t in a.targets] != [ast.dump(t) for t in b.targets]:
+                return None
+            if isinstance(a, ast.Return) and (a.value is None or b.value is None):
+                return None
+            new = None
+            va, vb = a.value, b.value
+            pos = _diff_position(va, vb)
+            if pos is not None and c_pure:
+                probe = copy.deepcopy(a)
+                ppos = _diff_position(probe.value, vb)
+                if ppos is not None:
+                    pp, pf, pi = ppos[0], ppos[1], ppos[2]
+                    mk = ast.Name(id='__pos__', ctx=ast.Load())
+                    if pi is None:
+                        setattr(pp, pf, mk)
+                    else:
+                        getattr(pp, pf)[pi] = mk
+                    if _first_effect_position(probe, '__pos__', pure=self.is_pure):
+                        parent, field, idx, xa, xb = pos
+                        ife = ast.IfExp(test=copy.deepcopy(c), body=xa, orelse=xb)
+                        if idx is None:
+                            setattr(parent, field, ife)
+                        else:
+                            getattr(parent, field)[idx] = ife
+                        new = a
+            if new is None and isinstance(a, ast.Assign) and len(a.targets) == 1:
+                # the right-hand side is evaluated before the target in both spellings
+                new = ast.Assign(targets=a.targets, value=ast.IfExp(test=copy.deepcopy(c), body=va, orelse=vb))
+            elif new is None and isinstance(a, ast.Return):
+                new = ast.Return(value=ast.IfExp(test=copy.deepcopy(c), body=va, orelse=vb))
+            if new is None:
+                return None
+            out.append(new)
+        return out
 
     def _local(self, name):
         return name not in self.params and name != 'self'
@@ -477,43 +579,21 @@ class Idioms:
                 s.body, s.orelse = s.orelse, []
             return stmts[:i + 1] + [tail] + stmts[i + 1:]
 
-        # I1 if/else with one simple statement per arm
-        if isinstance(s, ast.If) and len(s.body) == 1 and len(s.orelse) == 1:
-            a, b = s.body[0], s.orelse[0]
-            if type(a) is type(b) and isinstance(a, (ast.Assign, ast.Expr, ast.Return)) and ast.dump(a) != ast.dump(b) \
-                    and not (isinstance(a, ast.Assign) and [ast.dump(t) for t in a.targets] != [ast.dump(t) for t in b.targets]) \
-                    and not (isinstance(a, ast.Return) and (a.value is None or b.value is None)):
-                new = None
-                va, vb = a.value, b.value
-                pos = _diff_position(va, vb)
-                if pos is not None and self.is_pure(s.test):
-                    # the position must be reached before anything but plain loads, unconditionally
-                    probe = copy.deepcopy(a)
-                    ppos = _diff_position(probe.value, vb)
-                    if ppos is not None:
-                        pp, pf, pi = ppos[0], ppos[1], ppos[2]
-                        mk = ast.Name(id='__pos__', ctx=ast.Load())
-                        if pi is None:
-                            setattr(pp, pf, mk)
-                        else:
-                            getattr(pp, pf)[pi] = mk
-                        if _first_effect_position(probe, '__pos__'):
-                            parent, field, idx, xa, xb = pos
-                            ife = ast.IfExp(test=s.test, body=xa, orelse=xb)
-                            if idx is None:
-                                setattr(parent, field, ife)
-                            else:
-                                getattr(parent, field)[idx] = ife
-                            new = a
-                if new is None and isinstance(a, ast.Assign) and len(a.targets) == 1:
-                    # the right-hand side is evaluated before the target in both spellings
-                    new = ast.Assign(targets=a.targets, value=ast.IfExp(test=s.test, body=va, orelse=vb))
-                elif new is None and isinstance(a, ast.Return):
-                    new = ast.Return(value=ast.IfExp(test=s.test, body=va, orelse=vb))
-                if new is not None:
-                    ast.copy_location(new, s)
-                    ast.fix_missing_locations(new)
-                    return stmts[:i] + [new] + stmts[i + 1:]
+        # tail duplication: `if c: A [else: B] ; return E` as the end of a block  ->  the return inside both arms
+        if isinstance(s, ast.If) and i + 2 == len(stmts) and isinstance(nxt, ast.Return) and not _ends_terminal(s.body) \
+                and not (s.orelse and _ends_terminal(s.orelse)) and _size(nxt) <= 60 and _depth_ok(s):
+            s.body = s.body + [copy.deepcopy(nxt)]
+            s.orelse = (s.orelse or []) + [copy.deepcopy(nxt)]
+            return stmts[:i + 1]
+
+        # I1 if/else whose arms are the same statements up to one sub-expression each
+        if isinstance(s, ast.If) and s.orelse and len(s.body) == len(s.orelse) and 1 <= len(s.body) <= 3:
+            merged = self._merge_arms(s)
+            if merged is not None:
+                for x in merged:
+                    ast.copy_location(x, s)
+                    ast.fix_missing_locations(x)
+                return stmts[:i] + merged + stmts[i + 1:]
 
         # polarity of if/else on an exactly negatable test
         if isinstance(s, ast.If) and s.orelse:
@@ -774,6 +854,35 @@ class Idioms:
         if base in ar and (cn == base or not cn.startswith(('np.', 'scipy.', 'numpy.'))):
             return ar[base]
         return None
+
+
+def _ends_terminal(stmts):
+    if not stmts:
+        return False
+    t = stmts[-1]
+    if isinstance(t, (ast.Return, ast.Raise, ast.Continue, ast.Break)):
+        return True
+    if isinstance(t, ast.If) and t.orelse:
+        return _ends_terminal(t.body) and _ends_terminal(t.orelse)
+    return False
+
+
+def _size(n):
+    return sum(1 for _ in ast.walk(n))
+
+
+def _depth_ok(s, limit=3):
+    """Tail duplication is exponential in the nesting of if statements at block ends: bound it."""
+    d = 0
+    cur = s
+    while isinstance(cur, ast.If) and d <= limit:
+        d += 1
+        nxt = None
+        for arm in (cur.body, cur.orelse):
+            if arm and isinstance(arm[-1], ast.If):
+                nxt = arm[-1]
+        cur = nxt
+    return d <= limit
 
 
 def call_name_of(e):
